@@ -248,6 +248,9 @@ def _run(ctx, rng, kind, **kw):
                         cases.append(("tlv:" + k2, mut))
                     for k2, mut in gen.der_tree_mutations(blob):       # one node edited, every enclosing length re-encoded
                         cases.append((k2, mut))
+                    if len(blob) < 400:
+                        for k2, mut in gen.der_self_nesting(blob, (1, 2, 40, 1100) if ctx.tier == "quick" else (1, 2, 40, 1100, 3000)):
+                            cases.append((k2.split(":x")[0] + (":deep" if int(k2.split(":x")[1]) > 100 else ":shallow"), mut))
                 for k2, data in cases:
                     for ent in ents:
                         feed(ctx, ent, data, k2, stats, curve.name)
